@@ -10,7 +10,7 @@ def correspond(ctx):
                          "the primitive route for the path; grid frames up to 3x3; emitted program (with the line graph's edge set "
                          "canonicalised) and the returned is_passed array vs the Lean model")
     graphcorr.run_cases(ctx, graphcorr.case_cycle, ctx.n(300, 4000), "cycle", with_ids=True, native_sets=True)
-    graphcorr.run_cases(ctx, lambda r: graphcorr.case_cycle(r, True), ctx.n(200, 3000), "path", with_ids=True, native_sets=True)
+    graphcorr.run_cases(ctx, graphcorr.case_path, ctx.n(200, 3000), "path", with_ids=True, native_sets=True)
     graphcorr.run_cases(ctx, graphcorr.case_frame_cycle, ctx.n(60, 600), "frame", with_ids=True, native_sets=True)
     if not ctx.quick():
         for f in search(ctx, None, budget=40):
